@@ -237,7 +237,7 @@ theorem C02_step_ignores_selected_frame (m : St) (e : Ecx) (op : SOp) :
 /-! sanity test (not a proof): `stepi` with the caller frame selected steps from the real pc, over the breakpoint -/
 #guard (execAllSC (initC [0x1000, 0x1004, 0x2000, 0x2004, 0x1008] 0x1000 (fun _ => 0x90) 0)
     [.base (.base (.brk 0x2000)), .base (.base .start), .ctx (.frame 1 (some 0x1008)), .base (.stepn 1),
-     .ctx .backtrace]).1.m.idx == 3
+     .ctx (.backtrace true)]).1.m.idx == 3
 #guard (execAllSC (initC [0x1000, 0x1004, 0x2000, 0x2004, 0x1008] 0x1000 (fun _ => 0x90) 0)
     [.base (.base (.brk 0x2000)), .base (.base .start), .ctx (.frame 1 (some 0x1008)), .base (.stepn 1)]).1.ecx
   == ⟨0x2004, 0⟩
